@@ -133,10 +133,10 @@ def run(ctx, rep):
     rep.not_decided = 'conformance of the concatenated text to the six target grammars (a string-analysis problem beyond reach here); doc text escaping its comment is decided under C15.'
     rep.trusted = ['syn', 'astq evaluator / Renderer', 'rules/c10_keywords.json (target-language reserved words)']
     T = emit.Types(ctx.astq)
-    b1(ctx, rep, T)
-    b2(ctx, rep)
-    b3(ctx, rep, T)
-    b6(ctx, rep, T)
+    rep.section(b1, ctx, rep, T)
+    rep.section(b2, ctx, rep)
+    rep.section(b3, ctx, rep, T)
+    rep.section(b6, ctx, rep, T)
     # B4: truncating rewrite (shared with C17 W5)
     sub = core.Report('C10', rep.tier)
     c17.run(ctx, sub)
